@@ -61,6 +61,8 @@ package config
 //@   props C18 C10
 //@   fresh
 //@   ensures result != nil && result.ScanTests == scanTests && result.ExcludePaths == excludePaths && result.ExcludeChecks == excludeChecks
+// (membership stated explicitly: sequence equality is extensional, and a caller that reasons about `contains` needs the link)
+//@   ensures forall x string :: (contains(result.ExcludePaths, x) <==> contains(excludePaths, x)) && (contains(result.ExcludeChecks, x) <==> contains(excludeChecks, x))
 //@   assigns nothing
 //@ func Default
 //@   props C18 C10
